@@ -35,6 +35,11 @@ pub struct RawPos {
     pub picks: Vec<(u8, u8, u8)>,
     pub gold_to_move: bool,
     pub mn_sel: u8,
+    /// keep pieces that stand unsupported on a trap in the start position (a diagram may show such
+    /// a position; the first action removes them - C10 "once any action has been applied")
+    pub keep_hanging: bool,
+    /// endgame material: each side keeps exactly one rabbit (elimination is one capture away)
+    pub last_rabbits: bool,
 }
 
 const FULL_ORDER: [u8; 16] =
@@ -50,8 +55,17 @@ pub fn move_number_from(sel: u8) -> usize {
         6 => 3,
         7..=11 => 2 + (sel as usize / 16) * 3,
         12 => 1_000_000,
-        13 => 1_000_000_000_000,
-        14 => 4_294_967_295,
+        13 => match sel / 16 {
+            0..=3 => 1_000_000_000_000,
+            4..=6 => 1usize << 63,
+            7..=9 => (1usize << 63) - 1,
+            10..=12 => usize::MAX - (1usize << 33),
+            _ => usize::MAX / 3,
+        },
+        14 => match sel / 16 {
+            0..=7 => 4_294_967_295,
+            _ => 65_535 + (sel as usize / 16 - 8),
+        },
         _ => 17,
     }
 }
@@ -152,10 +166,25 @@ pub fn build_pos(raw: &RawPos, mode: PosMode) -> PosSpec {
     }
     // ---- legalise: nothing unsupported on a trap (traps are never adjacent to each other, so one
     // pass suffices)
-    for &t in m::TRAPS.iter() {
-        let c = b.at(t);
-        if c != m::EMPTY && !b.has_friend_adjacent(t, m::is_gold(c)) {
-            b.0[t as usize] = m::EMPTY;
+    if raw.last_rabbits {
+        for gold in [true, false] {
+            let mut seen = false;
+            for &sq in placed.iter() {
+                if b.at(sq) == m::mk(gold, m::R) {
+                    if seen {
+                        b.0[sq as usize] = m::EMPTY;
+                    }
+                    seen = true;
+                }
+            }
+        }
+    }
+    if !raw.keep_hanging {
+        for &t in m::TRAPS.iter() {
+            let c = b.at(t);
+            if c != m::EMPTY && !b.has_friend_adjacent(t, m::is_gold(c)) {
+                b.0[t as usize] = m::EMPTY;
+            }
         }
     }
     if mode == PosMode::GameStart {
@@ -184,7 +213,7 @@ pub fn build_pos(raw: &RawPos, mode: PosMode) -> PosSpec {
             }
         }
     }
-    debug_assert!(b.traps_legal() && b.within_complement());
+    debug_assert!((raw.keep_hanging || b.traps_legal()) && b.within_complement());
     PosSpec { board: b, gold_to_move: raw.gold_to_move, move_number: move_number_from(raw.mn_sel) }
 }
 
@@ -204,7 +233,42 @@ pub fn immobilised_board(mover: bool, imm: &[(u8, u8, u8)]) -> (Board, Vec<u8>) 
         if m::neighbours(sq).any(|n| b.at(n) != m::EMPTY && m::is_gold(b.at(n)) == mover) {
             continue;
         }
-        if style % 3 == 0 {
+        if style % 4 == 3 {
+            // boxed piece on the edge of the board: not frozen, but every neighbour is occupied - one by a
+            // weaker enemy piece that is itself boxed in (so it cannot be pushed), the others by enemy
+            // pieces of equal strength (which neither freeze nor can be pushed)
+            const EDGE: [u8; 28] = [0, 1, 2, 3, 4, 5, 6, 7, 8, 15, 16, 23, 24, 31, 32, 39, 40, 47, 48, 55, 56, 57, 58, 59, 60, 61, 62, 63];
+            let sq = EDGE[(sqsel as usize * EDGE.len()) >> 8];
+            let k = [m::C, m::D, m::H][(ksel % 3) as usize];
+            if b.at(sq) != m::EMPTY || m::neighbours(sq).any(|n| b.at(n) != m::EMPTY) {
+                continue;
+            }
+            let ns: Vec<u8> = m::neighbours(sq).filter(|n| !m::is_trap(*n)).collect();
+            if ns.len() != m::neighbours(sq).count() || ns.len() > 3 {
+                continue;
+            }
+            if b.count(m::mk(mover, k)) >= m::COMPLEMENT[k as usize] as usize || b.count(m::mk(last, k)) + ns.len() - 1 > m::COMPLEMENT[k as usize] as usize {
+                continue;
+            }
+            let wi = (ksel as usize / 3) % ns.len();
+            let wsq = ns[wi];
+            // squares that must be filled around the weak piece
+            let fill: Vec<u8> = m::neighbours(wsq).filter(|&n| n != sq).collect();
+            if fill.iter().any(|&n| b.at(n) != m::EMPTY || m::is_trap(n) || ns.contains(&n)) {
+                continue;
+            }
+            if b.count(m::mk(last, m::R)) + 1 + fill.len() > 8 {
+                continue;
+            }
+            b.0[sq as usize] = m::mk(mover, k);
+            for (i, &n) in ns.iter().enumerate() {
+                b.0[n as usize] = if i == wi { m::mk(last, m::R) } else { m::mk(last, k) };
+            }
+            for &n in fill.iter() {
+                b.0[n as usize] = m::mk(last, m::R);
+            }
+            used.push(sq);
+        } else if style % 3 == 0 {
             // blocked rabbit: enemy rabbits in front and on both sides (not frozen, cannot move, cannot push)
             let fwd = if mover { 0 } else { 2 };
             let mut ok = true;
@@ -351,6 +415,16 @@ pub fn raw_pos() -> impl Strategy<Value = RawPos> {
         picks,
         gold_to_move: g,
         mn_sel: mn,
+        keep_hanging: false,
+        last_rabbits: false,
+    })
+}
+
+/// Like raw_pos, but about one position in eight keeps pieces hanging on traps (see RawPos).
+pub fn raw_pos_maybe_hanging() -> impl Strategy<Value = RawPos> {
+    (raw_pos(), 0u8..8).prop_map(|(mut r, h)| {
+        r.keep_hanging = h == 0;
+        r
     })
 }
 
@@ -363,6 +437,8 @@ pub fn raw_pos_small() -> impl Strategy<Value = RawPos> {
             picks,
             gold_to_move: g,
             mn_sel: mn,
+            keep_hanging: false,
+            last_rabbits: st % 5 == 3,
         },
     )
 }
@@ -379,12 +455,18 @@ pub struct GameParams {
     pub w_pos: u32,
     pub w_small: u32,
     pub w_frozen: u32,
+    /// allow start positions with pieces hanging on traps (only for properties whose text covers them)
+    pub hanging: bool,
 }
 
 pub fn game(p: GameParams) -> impl Strategy<Value = Case> {
     let start = prop_oneof![
         p.w_setup => Just(Start::Setup),
-        p.w_pos => raw_pos().prop_map(|r| Start::Pos(build_pos(&r, PosMode::GameStart))),
+        p.w_pos => (raw_pos(), 0u8..8).prop_map(move |(mut r, h)| {
+            r.keep_hanging = p.hanging && h == 0;
+            r.last_rabbits = !r.full && h == 7;
+            Start::Pos(build_pos(&r, PosMode::GameStart))
+        }),
         p.w_small => raw_pos_small().prop_map(|r| Start::Pos(build_pos(&r, PosMode::GameStart))),
         p.w_frozen => near_immobile().prop_map(Start::Pos),
     ];
@@ -406,7 +488,7 @@ mod tests {
             let r = raw_pos().new_tree(&mut runner).unwrap().current();
             for mode in [PosMode::Any, PosMode::GameStart] {
                 let p = build_pos(&r, mode);
-                assert!(p.board.traps_legal());
+                assert!(p.board.traps_legal() || r.keep_hanging);
                 assert!(p.board.within_complement());
                 if mode == PosMode::GameStart {
                     assert!(p.board.has_rabbit(true) && p.board.has_rabbit(false));
